@@ -409,7 +409,9 @@ func checkAfterFlag(r *Run, rc *RuleCtx, fn *ssa.Function, acc *ssa.Phi) {
 	}
 	rc.Instance("after-MAC flag", true, nil)
 	if flag == nil {
-		rc.Violation(fn, instrPos(acc), "no after-MAC flag", "attributes before the MAC are counted too (or none are)")
+		if ok, why := accumulatesAfterFirstMAC(fn, acc); !ok {
+			rc.Violation(fn, instrPos(acc), "no after-MAC flag", "attributes before the MAC are counted too (or none are): "+why)
+		}
 		return
 	}
 	// flag starts false
@@ -887,14 +889,26 @@ func runC05(r *Run) {
 				}
 			}
 		}
-		for _, ret := range returnsOf(check) {
-			v := deref(ret.Results[0])
-			if c, ok := v.(*ssa.Call); ok && chk != nil && callsFn(c, chk) && got != nil && fvc != nil {
-				a0, a1 := canonPhi(c.Call.Args[0]), canonPhi(c.Call.Args[1])
-				if (a0 == got && a1 == ssa.Value(fvc)) || (a1 == got && a0 == ssa.Value(fvc)) {
-					okRet = true
+		// every return that may report success returns checkFingerprint(got, expected); the others are
+		// the (non-nil) errors of the lookup and of the size check
+		{
+			nVerdict, bad := 0, false
+			q := &PathQuery{P: p, Fn: check}
+			q.AtReturn = func(ret *ssa.Return, st uint64, c *PathCtx) {
+				v := c.Resolve(deref(c.Resolve(ret.Results[0])))
+				if cc, ok := v.(*ssa.Call); ok && chk != nil && callsFn(cc, chk) && got != nil && fvc != nil {
+					a0, a1 := canonPhi(c.Resolve(cc.Call.Args[0])), canonPhi(c.Resolve(cc.Call.Args[1]))
+					if (a0 == got && a1 == ssa.Value(fvc)) || (a1 == got && a0 == ssa.Value(fvc)) {
+						nVerdict++
+						return
+					}
+				}
+				if c.NilState(ret.Results[0]) != -1 {
+					bad = true
 				}
 			}
+			q.Run()
+			okRet = nVerdict > 0 && !bad && !q.Exhausted
 		}
 		ck.Instance("verdict", true, nil)
 		if !okRet {
@@ -946,4 +960,134 @@ func checkDecodeReadOnly(r *Run, rc *RuleCtx) {
 		})
 		rc.Instance(fnName(fn), fn == cl.DecodeM, map[string]interface{}{"fn": fnName(fn), "byte_writes": n})
 	}
+}
+
+// accumulatesAfterFirstMAC: the index form of "everything after the first MESSAGE-INTEGRITY":
+// a search loop advances `first` from 0 while first < len(S) && S[first].Type != 0x0008, and the
+// accumulating loop is a counting loop over S from first+1 to len(S) that reads S[idx].
+func accumulatesAfterFirstMAC(fn *ssa.Function, acc *ssa.Phi) (bool, string) {
+	loops := loopsOf(fn)
+	var accLoop *Loop
+	for _, lp := range loops {
+		if lp.Header == acc.Block() {
+			accLoop = lp
+		}
+	}
+	if accLoop == nil {
+		return false, "the accumulator is not loop-carried"
+	}
+	idx, startV, off, bound, ok := indexLoopInfoV(accLoop)
+	if !ok {
+		return false, "the accumulating loop is not a counting loop"
+	}
+	ln, isLen := bound.(*ssa.Call)
+	if !isLen || !isBuiltinCall(ln, "len") {
+		return false, "the accumulating loop is not bounded by the length of the attribute list"
+	}
+	S := canonCell(ln.Call.Args[0])
+	// the loop reads S[idx]
+	reads := false
+	eachInstr(fn, func(b *ssa.BasicBlock, i int, in ssa.Instruction) {
+		if ia, ok := in.(*ssa.IndexAddr); ok && accLoop.Body[b] && canonCell(ia.X) == S && ia.Index == idx {
+			reads = true
+		}
+	})
+	if !reads {
+		return false, "the accumulating loop does not read the attribute at its index"
+	}
+	// start = first + 1 (+off)
+	sv := stripConvs(startV)
+	total := off
+	if b, isB := sv.(*ssa.BinOp); isB && b.Op == token.ADD {
+		if c, isC := constInt(b.Y); isC {
+			total += c
+			sv = stripConvs(b.X)
+		} else if c, isC := constInt(b.X); isC {
+			total += c
+			sv = stripConvs(b.Y)
+		}
+	}
+	first, isPhi := sv.(*ssa.Phi)
+	if !isPhi || total != 1 {
+		return false, "the accumulating loop does not start right after the attribute found by the search"
+	}
+	// first: phi(0, first+1) in the header of the search loop
+	var search *Loop
+	for _, lp := range loops {
+		if lp.Header == first.Block() {
+			search = lp
+		}
+	}
+	if search == nil {
+		return false, "no search loop for the first MESSAGE-INTEGRITY"
+	}
+	zero, inc := false, false
+	for i, e := range first.Edges {
+		if search.Body[first.Block().Preds[i]] {
+			if b, isB := e.(*ssa.BinOp); isB && b.Op == token.ADD && b.X == ssa.Value(first) {
+				if c, isC := constInt(b.Y); isC && c == 1 {
+					inc = true
+					continue
+				}
+			}
+			return false, "the search index is not advanced by one"
+		}
+		if c, isC := constInt(e); isC && c == 0 {
+			zero = true
+		} else {
+			return false, "the search does not start at the first attribute"
+		}
+	}
+	if !zero || !inc {
+		return false, "the search index is not 0, 1, 2, ..."
+	}
+	// the search continues only while S[first].Type != 0x0008 and first < len(S)
+	typeStop, boundStop := false, false
+	for b := range search.Body {
+		iff, isIf := b.Instrs[len(b.Instrs)-1].(*ssa.If)
+		if !isIf {
+			continue
+		}
+		bo, isB := iff.Cond.(*ssa.BinOp)
+		if !isB {
+			continue
+		}
+		exits := func(k int) bool { return !search.Body[b.Succs[k]] }
+		switch bo.Op {
+		case token.EQL, token.NEQ:
+			c, isC := constInt(bo.Y)
+			x := bo.X
+			if !isC {
+				c, isC = constInt(bo.X)
+				x = bo.Y
+			}
+			if !isC || c != attrMessageIntegrity {
+				continue
+			}
+			// x is S[first].Type
+			if ld, isLd := stripConvs(x).(*ssa.UnOp); isLd {
+				if fa, isFA := ld.X.(*ssa.FieldAddr); isFA {
+					if ia, isIA := fa.X.(*ssa.IndexAddr); isIA && canonCell(ia.X) == S && ia.Index == ssa.Value(first) {
+						eqArm := 0
+						if bo.Op == token.NEQ {
+							eqArm = 1
+						}
+						if exits(eqArm) && !exits(1-eqArm) {
+							typeStop = true
+						}
+					}
+				}
+			}
+		case token.LSS:
+			if bo.X == ssa.Value(first) {
+				if l2, isL := bo.Y.(*ssa.Call); isL && isBuiltinCall(l2, "len") && canonCell(l2.Call.Args[0]) == S && exits(1) && !exits(0) {
+					boundStop = true
+				}
+			}
+		}
+	}
+	if !typeStop || !boundStop {
+		return false, "the search loop does not stop exactly at the first attribute of type 0x0008 (or at the end of the list)"
+	}
+	return true, ""
 }
